@@ -424,19 +424,27 @@ fn decode_oracle(w: &Wire) -> Option<Vec<u8>> {
 }
 
 pub fn run(w: &Wire, c: &Cfg, p: &Prov) -> Observed {
+    let mut svc = ScriptedProvider::new(p.clone());
+    match run_with(w, c, &mut svc) {
+        Some(ob) => ob,
+        None => Observed {
+            outcome: Outcome::NotBuildable("http refused the request".to_string()),
+            log: ProvLog::default(),
+            path: vec![],
+            query: None,
+            canonical_request: None,
+            string_to_sign: None,
+            decoded: None,
+        },
+    }
+}
+
+/// Run against an existing provider instance (histories).  The returned log is a snapshot of the
+/// provider's cumulative log.
+pub fn run_with(w: &Wire, c: &Cfg, svc_in: &mut ScriptedProvider) -> Option<Observed> {
     let req = match build_request(w) {
         Ok(r) => r,
-        Err(e) => {
-            return Observed {
-                outcome: Outcome::NotBuildable(e),
-                log: ProvLog::default(),
-                path: vec![],
-                query: None,
-                canonical_request: None,
-                string_to_sign: None,
-                decoded: None,
-            }
-        }
+        Err(_) => return None,
     };
     let path = req.uri().path().as_bytes().to_vec();
     let query = req.uri().query().map(|q| q.as_bytes().to_vec());
@@ -481,7 +489,7 @@ pub fn run(w: &Wire, c: &Cfg, p: &Prov) -> Observed {
     };
 
     // ---- the validation itself
-    let mut svc = ScriptedProvider::new(p.clone());
+    let svc = svc_in;
     let log = svc.log.clone();
     type R = Result<(http::request::Parts, Bytes, SigV4AuthenticatorResponse), BoxError>;
     let res: Result<R, String> = catch(|| {
@@ -490,25 +498,25 @@ pub fn run(w: &Wire, c: &Cfg, p: &Prov) -> Observed {
             1 => {
                 let r = Request::from_parts(parts, Bytes::from(body));
                 if c.vec_reqs {
-                    block_on(sigv4_validate_request(r, &c.region, &c.service, &mut svc, now, &vec_reqs, opts))
+                    block_on(sigv4_validate_request(r, &c.region, &c.service, &mut *svc, now, &vec_reqs, opts))
                 } else {
-                    block_on(sigv4_validate_request(r, &c.region, &c.service, &mut svc, now, &slice_reqs, opts))
+                    block_on(sigv4_validate_request(r, &c.region, &c.service, &mut *svc, now, &slice_reqs, opts))
                 }
             }
             2 if body.is_empty() => {
                 let r = Request::from_parts(parts, ());
                 if c.vec_reqs {
-                    block_on(sigv4_validate_request(r, &c.region, &c.service, &mut svc, now, &vec_reqs, opts))
+                    block_on(sigv4_validate_request(r, &c.region, &c.service, &mut *svc, now, &vec_reqs, opts))
                 } else {
-                    block_on(sigv4_validate_request(r, &c.region, &c.service, &mut svc, now, &slice_reqs, opts))
+                    block_on(sigv4_validate_request(r, &c.region, &c.service, &mut *svc, now, &slice_reqs, opts))
                 }
             }
             _ => {
                 let r = Request::from_parts(parts, body);
                 if c.vec_reqs {
-                    block_on(sigv4_validate_request(r, &c.region, &c.service, &mut svc, now, &vec_reqs, opts))
+                    block_on(sigv4_validate_request(r, &c.region, &c.service, &mut *svc, now, &vec_reqs, opts))
                 } else {
-                    block_on(sigv4_validate_request(r, &c.region, &c.service, &mut svc, now, &slice_reqs, opts))
+                    block_on(sigv4_validate_request(r, &c.region, &c.service, &mut *svc, now, &slice_reqs, opts))
                 }
             }
         }
@@ -534,8 +542,16 @@ pub fn run(w: &Wire, c: &Cfg, p: &Prov) -> Observed {
             Err(e) => Outcome::OtherError(e.to_string()),
         },
     };
-    let log = std::mem::take(&mut *log.lock().unwrap());
-    Observed {
+    let log = {
+        let l = log.lock().unwrap();
+        ProvLog {
+            ready_polls: l.ready_polls,
+            calls: l.calls.clone(),
+            call_before_ready: l.call_before_ready,
+            future_polls: l.future_polls,
+        }
+    };
+    Some(Observed {
         outcome,
         log,
         path,
@@ -543,7 +559,7 @@ pub fn run(w: &Wire, c: &Cfg, p: &Prov) -> Observed {
         canonical_request: creq,
         string_to_sign: sts,
         decoded: decode_oracle(w),
-    }
+    })
 }
 
 // ---------------------------------------------------------------------------------------------
